@@ -12,6 +12,7 @@ from __future__ import annotations
 
 import json
 import random
+import re
 import time
 
 import jsonschema
@@ -33,8 +34,8 @@ ASSUMPTIONS = [
     "labels attached to locations for which the operation declares nothing are ignored",
     "whether an operation is violable at all is only judged for the clear cases (typed/constrained/required inputs vs no inputs or `{}`)",
 ]
-MIN_EVALUATIONS = {"quick": 1200, "thorough": 20000}
-MIN_NONTRIVIAL = {"quick": 600, "thorough": 12000}
+MIN_EVALUATIONS = {"quick": 800, "thorough": 20000}
+MIN_NONTRIVIAL = {"quick": 400, "thorough": 12000}
 REACH_FLOORS = {"negative_parts_judged": 1000, "positive_parts_judged": 100, "operations": 60, "skip_expected": 3}
 SHARD_TIMEOUT = {"quick": 900, "thorough": 5400}
 
@@ -112,6 +113,25 @@ def special_document(rng, kind):
             "info": {"title": "t", "version": "1"},
             "paths": {"/op/{p}": {"get": {"parameters": params, "responses": ok}}},
         }, "cases"
+    if kind == "nullable_text_locations":
+        # nullable parameters become anyOf[typed, null]: the text form of a value must be read against both branches
+        return {
+            "openapi": "3.0.2",
+            "info": {"title": "t", "version": "1"},
+            "paths": {
+                "/op/{p}": {
+                    "get": {
+                        "parameters": [
+                            {"name": "q1", "in": "query", "required": True, "schema": {"type": "string", "minLength": 3, "nullable": True}},
+                            {"name": "c1", "in": "cookie", "required": True, "schema": {"type": "integer", "minimum": 5, "nullable": True}},
+                            {"name": "X-N", "in": "header", "required": True, "schema": {"type": "number", "nullable": True}},
+                            {"name": "p", "in": "path", "required": True, "schema": {"type": "integer", "minimum": -1, "maximum": 5}},
+                        ],
+                        "responses": ok,
+                    }
+                }
+            },
+        }, "cases"
     if kind == "string_cookies_only":
         return {
             "openapi": "3.0.2",
@@ -175,13 +195,24 @@ def special_document(rng, kind):
     raise AssertionError(kind)
 
 
-SPECIALS = ["no_inputs", "empty_body_schema", "string_header_only", "string_path_only", "string_path_plus_int_query", "additional_only_object", "optional_body_only", "string_cookies_only", "string_cookies_plus_int_query", "string_headers_plus_int_query", "typelist_31_strings", "typelist_31_mixed"]
+SPECIALS = ["no_inputs", "empty_body_schema", "string_header_only", "string_path_only", "string_path_plus_int_query", "additional_only_object", "optional_body_only", "string_cookies_only", "string_cookies_plus_int_query", "string_headers_plus_int_query", "typelist_31_strings", "typelist_31_mixed", "nullable_text_locations"]
 
 
 def wire_level_validity(doc, version, location, declared_here, value):
     """True: every declared parameter is present where required and its text form conforms under some typed reading,
     nothing undeclared is sent; False: some violation survives; None: not judged (containers, unknown shapes)."""
-    from vmon.props.c03 import coerce_readings
+    def coerce_readings(text):
+        # canonical spellings only: what any receiver would read as a number / boolean / null
+        out = [text]
+        if re.fullmatch(r"-?(0|[1-9][0-9]*)", text):
+            out.append(int(text))
+        elif re.fullmatch(r"-?(0|[1-9][0-9]*)(\.[0-9]+)?([eE][+-]?[0-9]+)?", text):
+            out.append(float(text))
+        elif text in ("true", "false"):
+            out.append(text == "true")
+        elif text == "null":
+            out.append(None)
+        return out
 
     if not isinstance(value, dict):
         return None
@@ -412,7 +443,9 @@ def run_shard(spec, emit):
                     if rec[0] != "negative":
                         viols.append((f"C02/part-labelled-negative-came-from-positive-generator:{location}", f"{value!r:.100}"))
                     validator = location_validator(doc, version, location, declared[location])
-                    if validator.is_valid(value):
+                    if isinstance(value, dict) and any(isinstance(v, str) and v.endswith("\n") and "pattern" in (declared[location].get(n, ({},))[0] or {}) for n, v in value.items()):
+                        emit.count("not_judged_trailing_newline_vs_pattern")  # Python `$` vs ECMA 262 `$`
+                    elif validator.is_valid(value):
                         viols.append((f"C02/part-labelled-negative-is-valid:{location}", f"{value!r:.120} declared={ {n: s for n, (s, _) in declared[location].items()} }"))
                     else:
                         # the wire-level reading: these locations are text, so a value whose text form conforms (5 for a
